@@ -360,7 +360,10 @@ func (self *Compiler) compileExpr(node ast.AnalyzedExpression) {
 			self.asPlace = false
 
 			if node.Operator != pAst.StdAssignOperatorKind {
+				// `place op= e` is `place = place op e`: the place is read before `e` is evaluated (as it is for a variable),
+				// what `e` writes to the same element / field must not reach the left operand.
 				self.insert(newPrimitiveInstruction(Opcode_Duplicate), node.Range)
+				self.insert(newPrimitiveInstruction(Opcode_Detach), node.Range)
 				self.compileExprWant(node.Rhs, true)
 				self.arithmeticHelper(node.Operator.IntoInfixOperator(), node.Range)
 			} else {
